@@ -17,7 +17,16 @@
 //     signature algorithm id, or another log key, it accepts exactly when the
 //     standard library verifies the same (input, signature) under that key.
 //
-// model.go is the reference (no zcrypto in it); oracles.go / verify.go compare.
+//  4. text forms: DigitallySigned / SHA256Hash / SCT MarshalJSON equal the
+//     documented JSON over the reference bytes and read back as the same value.
+//  5. history oracle: a []byte handed to the caller is the caller's — it must not
+//     change when the function (or a sibling) is called again, must not alias the
+//     input, and the caller's writes must not show up in later results.
+//
+// Decoders: accepting bytes that are not the serialisation of the value returned
+// is a violation; tolerated irregularities are an exact allow-list (case.go).
+//
+// model.go is the reference (no zcrypto in it); oracles.go / verify.go / extra.go compare.
 package main
 
 import (
@@ -57,13 +66,20 @@ func main() {
 		c.Rule("G-field: every assignment with at most d non-default fields (d printed per space) over boundary alphabets; " +
 			"full Cartesian products where stated; every offset x byte substitution and every truncation of each baseline serialised form; " +
 			"every single-bit flip of every signature-input field and of every signature. A case is distinct by construction (no two enumerated cases coincide); " +
-			"non-trivial = reached the oracle comparison (all do).")
+			"non-trivial = reached the oracle comparison (all do). Decoders: every enumerated malformed input must be refused (only a zero-length ASN.1Cert is tolerated, allow-listed). " +
+			"Verifier: additionally 5 non-DER encodings of each genuine ECDSA signature (extra element / stray byte inside the SEQUENCE, long-form lengths, padded r) must be refused, " +
+			"a reduced deviation menu under RSA-3072 and RSA-4096 log keys, every log key loaded through PEM -> PublicKeyFromPEM -> NewSignatureVerifier. " +
+			"Text forms: MarshalJSON of DigitallySigned, SHA256Hash and SCT for every value of A1/A2 in both packages. " +
+			"History oracle: every function returning []byte (23, both packages) x every ordered pair of its 3-4 value alphabet.")
 		c.Assume("reference = harness transcription of RFC 6962 §3.1-3.5/§4.6 and RFC 5246 DigitallySigned (model.go)",
 			"crypto/rsa, crypto/ecdsa, crypto/sha* of the Go standard library are correct",
 			"signatures are made by the standard library (PKCS#1 v1.5; ECDSA with a nil reader = RFC 6979), over the reference input, never over zcrypto's output",
 			"nil and empty byte strings are the same value",
-			"malformed inputs to decoders: acceptance is recorded as an observation, not a violation (the statement only speaks about bytes that are a serialisation)",
-			"hash id ≠ sha256: refusing is always accepted; accepting only if the signature is valid under the hash the id names")
+			"decoders: accepting bytes that are not the serialisation of the value returned (re-serialising gives other bytes) is a violation; the only tolerated irregularity is a zero-length ASN.1Cert (RFC lower bound <1..>), where re-serialising gives the same bytes (3 allow-listed observation classes, case.go)",
+			"hash id ≠ sha256(4): the verifier must refuse (RFC 6962 §2.1.4)",
+			"ECDSA: a strict DER signature followed by further bytes may be accepted (the verifier logs 'Garbage following signature' on purpose: 2 allow-listed observation classes); every other non-DER form must be refused",
+			"JSON forms: SignedCertificateTimestamp.MarshalJSON writes the timestamp in seconds (0 beyond year 9999), as its field comment documents; the value read back is compared with that timestamp",
+			"history oracle: run sequentially inside one goroutine per history; it detects storage shared between calls deterministically, concurrent use of one verifier from several goroutines is NOT explored")
 		initKeys(c)
 
 		if c.Replay != nil {
@@ -82,7 +98,7 @@ func main() {
 		for _, p := range []struct {
 			name string
 			f    func(*ev.Ctx)
-		}{{"A", partA}, {"B", partB}, {"C", partC}, {"K", partKeys}} {
+		}{{"A", partA}, {"B", partB}, {"C", partC}, {"K", partKeys}, {"H", partAlias}} {
 			t := time.Now()
 			p.f(c)
 			c.Set("wall_s:part"+p.name, time.Since(t).Seconds())
@@ -366,7 +382,8 @@ func partC(c *ev.Ctx) {
 	}
 	total := int64(0)
 	for _, b := range bases {
-		for _, ks := range []string{"rsa2048", "p256"} {
+		for _, ks := range []string{"rsa2048", "p256", "rsa3072", "rsa4096"} {
+			big := ks == "rsa3072" || ks == "rsa4096"
 			g := b
 			var input []byte
 			if g.Kind == "sth-verify" {
@@ -389,6 +406,21 @@ func partC(c *ev.Ctx) {
 				bt.add(v)
 			}
 			add("genuine")
+			if big {
+				// RSA-3072/4096 log keys: genuine + the reduced menu (first/last bit of every field and of the
+				// signature, trailing byte, ids, every other key incl. the other big key), singles only.
+				for _, a := range menu {
+					add(a.name, a.f)
+				}
+				for _, k := range bigKeys {
+					if k != ks {
+						k := k
+						add("verified under log key "+k, func(x *Case) { x.Key = k })
+					}
+				}
+				total += bt.done()
+				continue
+			}
 			for _, a := range singles {
 				add(a.name, a.f)
 			}
@@ -579,6 +611,32 @@ func deviations(g *Case, input []byte, all bool) (singles, menu []dev) {
 		s("signature", fmt.Sprintf("signature followed by %x", extra), func(x *Case) { x.Sig = append(append([]byte(nil), x.Sig...), extra...) })
 	}
 	m("signature", "signature followed by 00", func(x *Case) { x.Sig = append(append([]byte(nil), x.Sig...), 0) })
+	if g.SigAlg == 3 && len(g.Sig) > 8 && g.Sig[0] == 0x30 && g.Sig[1] < 0x7d {
+		// non-DER encodings of the genuine (r,s): none of them is tolerated
+		body := g.Sig[2:]
+		s("signature", "ECDSA: INTEGER 0 appended inside the SEQUENCE", func(x *Case) {
+			x.Sig = append(append([]byte{0x30, byte(len(body) + 3)}, body...), 2, 1, 0)
+		})
+		s("signature", "ECDSA: one byte 00 appended inside the SEQUENCE", func(x *Case) {
+			x.Sig = append(append([]byte{0x30, byte(len(body) + 1)}, body...), 0)
+		})
+		s("signature", "ECDSA: SEQUENCE length in long form 81 xx", func(x *Case) {
+			x.Sig = append([]byte{0x30, 0x81, byte(len(body))}, body...)
+		})
+		s("signature", "ECDSA: r with a redundant leading 00", func(x *Case) {
+			rl := int(body[1])
+			o := []byte{0x02, byte(rl + 1), 0x00}
+			o = append(o, body[2:2+rl]...)
+			o = append(o, body[2+rl:]...)
+			x.Sig = append([]byte{0x30, byte(len(o))}, o...)
+		})
+		s("signature", "ECDSA: r length in long form 81 xx", func(x *Case) {
+			rl := int(body[1])
+			o := []byte{0x02, 0x81, byte(rl)}
+			o = append(o, body[2:]...)
+			x.Sig = append([]byte{0x30, byte(len(o))}, o...)
+		})
+	}
 	s("signature", "signature replaced by the input", func(x *Case) { x.Sig = input })
 	s("signature", "signature of length 65535", func(x *Case) { x.Sig = pat(65535, 0x41) })
 
@@ -617,11 +675,39 @@ func deviations(g *Case, input []byte, all bool) (singles, menu []dev) {
 func partKeys(c *ev.Ctx) {
 	kinds := []string{"rsa512", "rsa1024", "rsa1025", "rsa2048", "rsa3072", "rsa4096", "p224", "p256", "p256b", "p384", "p521",
 		"ed25519", "dsa1024", "dsa2048", "nil", "string", "zrsa-by-value", "ecdsa-by-value", "rsa-private-key", "ecdsa-private-key",
-		"std-rsa2048", "zrsa-nil-modulus", "ecdsa-nil-curve", "typed-nil-rsa", "p256-copied-params"}
+		"std-rsa2048", "std-rsa1024", "zrsa-nil-modulus", "ecdsa-nil-curve", "typed-nil-rsa", "typed-nil-std-rsa", "typed-nil-ecdsa", "p256-copied-params"}
 	bt := newBatch(c, "K key kinds")
 	for _, k := range kinds {
 		bt.add(Case{Kind: "key", Key: k, Note: "NewSignatureVerifier(" + k + ")"})
 	}
 	c.Set("K_key_kinds", kinds)
 	bt.done()
+	// the package's own loader: PEM -> PublicKeyFromPEM -> NewSignatureVerifier -> Verify
+	pemKeys := append(append([]string{}, keyNames...), bigKeys...)
+	bt = newBatch(c, "K keys loaded from PEM")
+	for _, k := range pemKeys {
+		bt.add(Case{Kind: "key-pem", Key: k, Note: "PublicKeyFromPEM(" + k + ") -> NewSignatureVerifier -> VerifySTHSignature"})
+	}
+	c.Set("K_pem_keys", pemKeys)
+	bt.done()
+}
+
+// ---------------------------------------------------------------------------
+// Part H: history oracle — every function that hands a []byte to its caller x
+// every ordered pair of inputs of its alphabet (same size/other content, larger, smaller)
+
+func partAlias(c *ev.Ctx) {
+	fns := aliasFns()
+	bt := newBatch(c, "H alias histories")
+	var names []string
+	for _, f := range fns {
+		names = append(names, f.name)
+		for i := 0; i < f.n; i++ {
+			for j := 0; j < f.n; j++ {
+				bt.add(Case{Kind: "alias", Key: f.name, AI: i, AJ: j, Note: fmt.Sprintf("%s: value #%d, then value #%d, then every sibling, then the caller writes into the first result", f.name, i, j)})
+			}
+		}
+	}
+	c.Set("H_alias_functions", names)
+	c.Set("H_alias_histories", fmt.Sprintf("%d functions returning []byte (both packages) x all ordered pairs of a 3-4 value alphabet: %d histories of 2 + %d sibling calls + 1 call each", len(fns), bt.done(), len(fns)-1))
 }
